@@ -122,6 +122,8 @@ type RPCPlan struct {
 	StartDelay     time.Duration
 
 	pausedHandler bool
+	neverEnds     bool // the handler only returns when its context ends
+	late          bool // started after the tunnel ended
 
 	// results filled in at run time (read after the run)
 	Res *RPCResult
@@ -330,6 +332,7 @@ type hstream struct {
 	nrecv     int
 	nsend     int
 	unaryResp *wrapperspb.BytesValue
+	vstream   *grpctunnel.VerifStream
 }
 
 func unaryHandler(srv any, ctx context.Context, dec func(any) error, _ grpc.UnaryServerInterceptor) (any, error) {
@@ -424,6 +427,10 @@ func (h *hstream) run(shape int) error {
 	if h.plan.Res != nil {
 		h.plan.Res.HandlerCtx = h.ctx
 		h.plan.Res.HandlerInvocations++
+	}
+	if vs, vst, ok := grpctunnel.VerifServerFromContext(h.ctx); ok {
+		h.ts.W.noteServer(h.ts.Name, vs)
+		h.vstream = vst
 	}
 	done := make(chan error, 1)
 	if len(h.plan.HandlerSend) > 0 {
